@@ -239,15 +239,24 @@ func (w *walker) check(c cmd, r stepResult) {
 			kind = "extra"
 		}
 		cls := w.classify(c, w.lastView, v)
+		origin := ""
 		if c.Span == -1 {
-			kind += ":" + w.originTag(c, w.lastView)
+			origin = " (auto step starting " + w.originTag(c, w.lastView) + ")"
+		}
+		// Signature granularity = root-cause class: the symptom (kind) is part of the
+		// signature only for history-independent wrong results, where it separates
+		// "view excludes returned samples" from "returns fewer samples than the view".
+		detail := ""
+		if cls == "wrong-from-fresh-seek" {
+			detail = kind
 		}
 		if r.Err != nil {
 			// the step gave up with an error while its reported view holds stored samples
-			cls = "step-error-loses-samples:" + errKind(r.Err)
+			// (or while Value() still shows samples outside the view)
+			cls, detail = "step-error-loses-samples:"+errKind(r.Err), ""
 		}
-		w.violate(sig(c, cls, kind),
-			fmt.Sprintf("%s on %s: view %s holds stored samples at %v (%d bytes) but Value() has %d bytes in %d series %s; Error()=%v", c, chName(w.key), viewStr(v), modelTS(want), len(concat(want)), len(got), len(r.Series), seriesStr(r.Series), r.Err))
+		w.violate(sig(c, cls, detail),
+			fmt.Sprintf("%s on %s%s: %s: view %s holds stored samples at %v (%d bytes) but Value() has %d bytes in %d series %s; Error()=%v", c, chName(w.key), origin, kind, viewStr(v), modelTS(want), len(concat(want)), len(got), len(r.Series), seriesStr(r.Series), r.Err))
 		return
 	}
 	// Valid() must be false exactly when the view holds no stored sample (no error here).
